@@ -65,6 +65,11 @@ def strategy_(draw, tier):
             block = sum(n for n, _ in ops)
             qs = draw(st.integers(0, 30))
             qe = draw(st.integers(qs + 1, qlen))
+            if draw(st.integers(0, 4)) == 0:
+                # a perfect end-to-end alignment: identity 1.0 and map ratio 1.0
+                ops = [(draw(st.sampled_from([30, 50, 120])), "=")]
+                matches = block = ops[0][0]
+                qs, qe = 0, qlen
             tp = draw(st.sampled_from(["P", "P", "S", "I", None]))
             mapq = draw(st.sampled_from([0, 0, 1, 17, 60, 60, 255]))
             tags = []
